@@ -24,10 +24,10 @@ import (
 // unblinding terms.
 func RSAMaskDomain(p *load.Program, run *report.Run) {
 	const rule = "rsa-blinding-one-domain"
-	run.Rule(rule, "in package ot (rsa.go): every value whose Bytes() are taken and that is, through the helpers of ot and ot/mpint (read from their bodies: big.Int Add, Sub, Mod, Rem, Exp), a sum add(m,k) or a difference sub(m',k), possibly reduced: all sums have one form, all differences have one form, the sums are reduced modulo N exactly when the differences are, and no difference is reduced with Rem; with built-in examples")
+	run.Rule(rule, "in package ot: every value whose Bytes() are taken and that is, through the helpers of ot and ot/mpint (read from their bodies: big.Int Add, Sub, Mod, Rem, Exp), a sum add(m,k) or a difference sub(m',k), possibly reduced: all sums have one form, all differences have one form, the sums are reduced modulo N exactly when the differences are, and no difference is reduced with Rem; with built-in examples")
 	var fns []*ssa.Function
 	for _, fn := range p.AllFunctions() {
-		if fn.Pkg == nil || fn.Pkg.Pkg.Path() != load.Module+"/ot" || fn.Blocks == nil || fn.Synthetic != "" || !strings.HasSuffix(p.Fset.Position(fn.Pos()).Filename, "/rsa.go") {
+		if fn.Pkg == nil || fn.Pkg.Pkg.Path() != load.Module+"/ot" || fn.Blocks == nil || fn.Synthetic != "" || strings.HasSuffix(p.Fset.Position(fn.Pos()).Filename, "_test.go") {
 			continue
 		}
 		fns = append(fns, fn)
